@@ -92,6 +92,17 @@ func c05Scenarios(tier string) []*Scenario {
 			add(tr, "", false, RPC{Kind: "ss", Client: []string{"S0", "C", "R*"}, Handler: h}, "")
 			add(tr, "", false, RPC{Kind: "ss", Client: []string{"S0", "C", "H", "R", "R", "R", "T"}, Handler: h}, "")
 		}
+		// the handler returns early leaving several final frames (headers / trailers / error) while the
+		// client is still sending more than the request buffer holds and is not receiving
+		for _, h := range [][]string{{"r", "t:b", "ret:st:5"}, {"h:a", "t:b", "ret:st:5"}, {"r", "s0", "ret:st:5"}, {"r", "h:a", "t:b", "ret:ok"}} {
+			add(tr, "", false, RPC{Kind: "bd", Client: []string{"S0", "S1", "S2", "C", "R*"}, Handler: h}, "")
+			if tr == "http" {
+				add(tr, "", true, RPC{Kind: "bd", Client: []string{"S0", "S1", "S2", "C", "R*"}, Handler: h}, "")
+			}
+		}
+		// Header() parked while the context ends before any response header, and issued afterwards
+		add(tr, "cancel", false, RPC{Kind: "ss", Client: []string{"S0", "C", "R*", "H"}, Client2: []string{"H"}, Handler: []string{"r", "w", "ret:ctx"}}, "")
+		add(tr, "cancel", false, RPC{Kind: "bd", Client: []string{"S0", "C", "H", "R*"}, Handler: []string{"r*", "w", "ret:ctx"}}, "")
 		// with a canceller
 		add(tr, "cancel", false, RPC{Kind: "bd", Client: []string{"S0", "S1", "C", "R*"}, Handler: []string{"r*", "s0", "s1", "ret:ok"}}, "")
 		add(tr, "cancel", false, RPC{Kind: "bd", Client: []string{"S0", "S1", "C"}, Client2: []string{"R*"}, Handler: []string{"r*", "s0", "ret:ok"}}, "")
